@@ -416,6 +416,8 @@ pub const LET_PAIRS: &[(&str, &str)] = &[
     ("r = [n => n + 1, n => n * 2] via (f => f(5))", "t = n => n + 1\nr = [t, n => n * 2] via (f => f(5))"),
     ("fs = [n => if n <= 0 then 0 else 1 + fs[0](n - 1)]\nr = fs[0](3)", "t = n => if n <= 0 then 0 else 1 + fs[0](n - 1)\nfs = [t]\nr = fs[0](3)"),
     ("r = sort([{k: 2}, {k: 1}])", "t = {k: 1}\nr = sort([{k: 2}, t])"),
+    ("r = [random(0.5), random(7), random(0 - 2.25), random(1 / 3), random(1e300)]", "t = 0.5\nr = [random(t), random(7), random(0 - 2.25), random(1 / 3), random(1e300)]"),
+    ("r = [1, 2, 3] via (q => random(q + 0.25))", "t = q => random(q + 0.25)\nr = [1, 2, 3] via t"),
     ("r = keys(count_by([\"b\", \"a\", \"c\", \"a\"], s => s))", "t = count_by([\"b\", \"a\", \"c\", \"a\"], s => s)\nr = keys(t)"),
 ];
 
